@@ -676,4 +676,287 @@ theorem bincode_exact (ext : Nat → Bytes → Option Bytes) :
         obtain ⟨w2, b2⟩ := ihy hs.2 _ _ _ h2
         exact ⟨by simp [wt, w1, w2], by rw [b1, b2]; simp [encode]⟩
 
+/-! ### the decoder only returns well-typed values (all schemas, lenient leaves included) -/
+
+theorem bytesLt_total (a b : Bytes) (h1 : bytesLt a b = false) (h2 : a ≠ b) : bytesLt b a = true := by
+  induction a generalizing b with
+  | nil =>
+    cases b with
+    | nil => exact absurd rfl h2
+    | cons y ys => simp [bytesLt] at h1
+  | cons x xs ih =>
+    cases b with
+    | nil => simp [bytesLt]
+    | cons y ys =>
+      simp only [bytesLt, Bool.or_eq_false_iff, Bool.and_eq_false_iff, decide_eq_false_iff_not] at h1
+      simp only [bytesLt, Bool.or_eq_true, Bool.and_eq_true, decide_eq_true_eq]
+      by_cases hxy : x.toNat = y.toNat
+      · right
+        refine ⟨hxy.symm, ih ys ?_ ?_⟩
+        · rcases h1.2 with h | h
+          · exact absurd hxy h
+          · exact h
+        · intro he; subst he
+          have : x = y := UInt8.toNat_inj.mp hxy
+          subst this; exact h2 rfl
+      · left; omega
+
+/-- first key of a spine is above `k` (or the spine has no entry head) -/
+def headAbove (k : Bytes) : Value → Bool
+  | .pair (.pair (.bytes k') _) _ => bytesLt k k'
+  | _ => true
+
+theorem keysSorted_cons (k : Bytes) (v t : Value) :
+    keysSorted (.pair (.pair (.bytes k) v) t) = (headAbove k t && keysSorted t) := by
+  cases t with
+  | pair h t' =>
+    cases h with
+    | pair a b => cases a <;> simp [keysSorted, headAbove]
+    | _ => simp [keysSorted, headAbove]
+  | _ => simp [keysSorted, headAbove]
+
+theorem allEntries_cons (p : Value → Bool) (k : Bytes) (v t : Value) :
+    allEntries p (.pair (.pair (.bytes k) v) t) = (utf8Valid k && decide (k.length < 2^64) && p v && allEntries p t) := rfl
+
+theorem mapInsert_props (p : Value → Bool) (k : Bytes) (v : Value) (hk : utf8Valid k = true) (hl : k.length < 2^64)
+    (hv : p v = true) :
+    ∀ (acc : Value), allEntries p acc = true → keysSorted acc = true →
+      allEntries p (mapInsert k v acc) = true ∧ keysSorted (mapInsert k v acc) = true ∧
+      vlen (mapInsert k v acc) ≤ vlen acc + 1 ∧
+      (∀ k0, headAbove k0 acc = true → bytesLt k0 k = true → headAbove k0 (mapInsert k v acc) = true) := by
+  intro acc
+  induction acc with
+  | pair h t _ iht =>
+    intro ha hs
+    cases h with
+    | pair hk' hv' =>
+      cases hk' with
+      | bytes k' =>
+        have ha' := ha
+        simp only [allEntries, Bool.and_eq_true, decide_eq_true_eq] at ha
+        rw [keysSorted_cons, Bool.and_eq_true] at hs
+        simp only [mapInsert]
+        split
+        · rename_i hlt
+          refine ⟨?_, ?_, by simp [vlen], ?_⟩
+          · rw [allEntries_cons]; simp [hk, hl, hv, ha']
+          · simp only [keysSorted_cons, Bool.and_eq_true]; exact ⟨by simp [headAbove, hlt], hs.1, hs.2⟩
+          · intro k0 _ h0; simp [headAbove, h0]
+        · rename_i hnlt
+          split
+          · rename_i heq
+            subst heq
+            refine ⟨?_, ?_, by simp [vlen], ?_⟩
+            · rw [allEntries_cons]; simp [hk, hl, hv, ha.2]
+            · simp only [keysSorted_cons, Bool.and_eq_true]; exact ⟨hs.1, hs.2⟩
+            · intro k0 h0 _; simpa [headAbove] using h0
+          · rename_i hne
+            obtain ⟨i1, i2, i3, i4⟩ := iht ha.2 hs.2
+            have hgt : bytesLt k' k = true := bytesLt_total k k' (by simpa using hnlt) hne
+            refine ⟨?_, ?_, by simp [vlen]; omega, ?_⟩
+            · rw [allEntries_cons]; simp [ha.1, i1]
+            · simp only [keysSorted_cons, Bool.and_eq_true]; exact ⟨i4 k' hs.1 hgt, i2⟩
+            · intro k0 h0 _; simpa [headAbove] using h0
+      | _ => simp [allEntries] at ha
+    | _ => simp [allEntries] at ha
+  | unit =>
+    intro _ _
+    refine ⟨?_, ?_, by simp [mapInsert, vlen], ?_⟩
+    · simp [mapInsert, allEntries, hk, hl, hv]
+    · simp [mapInsert, keysSorted]
+    · intro k0 _ h0; simp [mapInsert, headAbove, h0]
+  | nat _ => intro ha; simp [allEntries] at ha
+  | int _ => intro ha; simp [allEntries] at ha
+  | bool _ => intro ha; simp [allEntries] at ha
+  | bytes _ => intro ha; simp [allEntries] at ha
+  | none => intro ha; simp [allEntries] at ha
+  | some _ _ => intro ha; simp [allEntries] at ha
+
+theorem decodeMapN_wt (f : Bytes → Option (Value × Bytes)) (p : Value → Bool) (bound : Option Nat)
+    (hf : ∀ b v r, f b = some (v, r) → p v = true) :
+    ∀ (n : Nat) (b : Bytes) (acc v : Value) (r : Bytes), decodeMapN f bound n b acc = some (v, r) →
+      allEntries p acc = true → keysSorted acc = true → withinBound bound (vlen acc) = true →
+      allEntries p v = true ∧ keysSorted v = true ∧ withinBound bound (vlen v) = true ∧ vlen v ≤ vlen acc + n := by
+  intro n
+  induction n with
+  | zero =>
+    intro b acc v r h ha hs hb
+    simp only [decodeMapN] at h
+    injection h with h; injection h with e1 e2
+    subst e1
+    exact ⟨ha, hs, hb, by omega⟩
+  | succ n ih =>
+    intro b acc v r h ha hs hb
+    simp only [decodeMapN] at h
+    split at h
+    · cases h
+    · rename_i k r1 h1
+      split at h
+      · cases h
+      · rename_i w r2 h2
+        split at h
+        · cases h
+        · rename_i hnb
+          obtain ⟨_, hkl, hku⟩ := readStr_some _ _ _ h1
+          obtain ⟨m1, m2, m3, _⟩ := mapInsert_props p k w hku hkl (hf _ _ _ h2) acc ha hs
+          have hb' : withinBound bound (vlen (mapInsert k w acc)) = true := by
+            cases bound with
+            | none => rfl
+            | some B =>
+              simp only [withinBound, decide_eq_true_eq] at hb ⊢
+              have : vlen acc ≠ B := fun he => hnb (by rw [he])
+              omega
+          obtain ⟨a1, a2, a3, a4⟩ := ih _ _ _ _ h m1 m2 hb'
+          exact ⟨a1, a2, a3, by omega⟩
+
+theorem decodeN_wt (f : Bytes → Option (Value × Bytes)) (p : Value → Bool)
+    (hf : ∀ b v r, f b = some (v, r) → p v = true) :
+    ∀ (n : Nat) (b : Bytes) (v : Value) (r : Bytes), decodeN f n b = some (v, r) →
+      allElems p v = true ∧ vlen v = n := by
+  intro n
+  induction n with
+  | zero =>
+    intro b v r h
+    simp only [decodeN] at h
+    injection h with h; injection h with h1 h2
+    subst h1
+    simp [allElems, vlen]
+  | succ n ih =>
+    intro b v r h
+    simp only [decodeN] at h
+    split at h
+    · cases h
+    · rename_i hd r1 h1
+      split at h
+      · cases h
+      · rename_i t r2 h2
+        injection h with h; injection h with e1 e2
+        subst e1
+        obtain ⟨p2, l2⟩ := ih _ _ _ h2
+        exact ⟨by simp [allElems, hf _ _ _ h1, p2], by simp [vlen, l2]⟩
+
+/-- the foreign parser returns canonical strings: valid UTF-8, shorter than 2^64, fixed by `ext` -/
+def ExtCanonical (ext : Nat → Bytes → Option Bytes) : Prop :=
+  ∀ k x x', ext k x = some x' → x'.length < 2^64 ∧ utf8Valid x' = true ∧ ext k x' = some x'
+
+/-- no zero-width signed integer anywhere (there is no such Rust type) -/
+def wfSchema : Schema → Bool
+  | .sint w => decide (0 < w)
+  | .option s => wfSchema s
+  | .seq _ s => wfSchema s
+  | .mapStr _ s => wfSchema s
+  | .pair a b => wfSchema a && wfSchema b
+  | _ => true
+
+/-- **the decoder only returns values of the type**: at every schema (lenient leaves included)
+    a successful decode yields a well-typed value. -/
+theorem decode_wt (ext : Nat → Bytes → Option Bytes) (hext : ExtCanonical ext) :
+    ∀ (s : Schema), wfSchema s = true → ∀ (b : Bytes) (v : Value) (rest : Bytes),
+      decode ext s b = some (v, rest) → wt ext s v = true := by
+  intro s
+  induction s with
+  | uint w => intro _ b v rest h; exact (bincode_exact ext (.uint w) rfl b v rest h).1
+  | sint w => intro hw b v rest h; exact (bincode_exact ext (.sint w) (by simpa [strict, wfSchema] using hw) b v rest h).1
+  | bool => intro _ b v rest h; exact (bincode_exact ext .bool rfl b v rest h).1
+  | raw n => intro _ b v rest h; exact (bincode_exact ext (.raw n) rfl b v rest h).1
+  | str => intro _ b v rest h; exact (bincode_exact ext .str rfl b v rest h).1
+  | bytesN n => intro _ b v rest h; exact (bincode_exact ext (.bytesN n) rfl b v rest h).1
+  | enumUnit n => intro _ b v rest h; exact (bincode_exact ext (.enumUnit n) rfl b v rest h).1
+  | unit => intro _ b v rest h; exact (bincode_exact ext .unit rfl b v rest h).1
+  | strExt k =>
+    intro _ b v rest h
+    simp only [decode] at h
+    split at h
+    · rename_i x r hx
+      split at h
+      · rename_i x' hx'
+        injection h with h; injection h with e1 e2
+        subst e1
+        obtain ⟨c1, c2, c3⟩ := hext k x x' hx'
+        simp [wt, c1, c2, c3]
+      · cases h
+    · cases h
+  | cenc =>
+    intro _ b v rest h
+    simp only [decode] at h
+    split at h
+    · rename_i x r hx
+      injection h with h; injection h with e1 e2
+      subst e1
+      split <;> simp [wt]
+    · cases h
+  | option s ih =>
+    intro hw b v rest h
+    simp only [wfSchema] at hw
+    simp only [decode] at h
+    split at h
+    · rename_i x r
+      split at h
+      · injection h with h; injection h with e1 e2
+        subst e1; rfl
+      · split at h
+        · split at h
+          · rename_i w r' hw'
+            injection h with h; injection h with e1 e2
+            subst e1
+            simpa [wt] using ih hw _ _ _ hw'
+          · cases h
+        · cases h
+    · cases h
+  | seq bound s ih =>
+    intro hw b v rest h
+    simp only [wfSchema] at hw
+    simp only [decode] at h
+    split at h
+    · cases h
+    · rename_i n r1 h1
+      split at h
+      · cases h
+      · rename_i hex
+        obtain ⟨_, hlt⟩ := readUint_some _ _ _ _ h1
+        obtain ⟨a1, a2⟩ := decodeN_wt (decode ext s) (wt ext s) (fun b v r hh => ih hw b v r hh) _ _ _ _ h
+        have h256 : (256:Nat)^8 = 2^64 := by decide
+        simp only [wt, Bool.and_eq_true, decide_eq_true_eq]
+        refine ⟨⟨a1, by omega⟩, ?_⟩
+        cases bound with
+        | none => rfl
+        | some bd =>
+          simp only [exceeds, decide_eq_true_eq, Bool.not_eq_true, decide_eq_false_iff_not] at hex
+          simp only [withinBound, decide_eq_true_eq]; omega
+  | mapStr bound s ih =>
+    intro hw b v rest h
+    simp only [wfSchema] at hw
+    simp only [decode] at h
+    split at h
+    · cases h
+    · rename_i n r1 h1
+      obtain ⟨_, hlt⟩ := readUint_some _ _ _ _ h1
+      have h256 : (256:Nat)^8 = 2^64 := by decide
+      obtain ⟨a1, a2, a3, a4⟩ := decodeMapN_wt (decode ext s) (wt ext s) bound (fun b v r hh => ih hw b v r hh)
+        _ _ _ _ _ h rfl rfl (by cases bound <;> simp [withinBound, vlen])
+      simp only [vlen] at a4
+      simp only [wt, Bool.and_eq_true, decide_eq_true_eq]
+      exact ⟨⟨⟨a1, a2⟩, by omega⟩, a3⟩
+  | pair x y ihx ihy =>
+    intro hw b v rest h
+    simp only [wfSchema, Bool.and_eq_true] at hw
+    simp only [decode] at h
+    split at h
+    · cases h
+    · rename_i v1 r1 h1
+      split at h
+      · cases h
+      · rename_i v2 r2 h2
+        injection h with h; injection h with e1 e2
+        subst e1
+        simp [wt, ihx hw.1 _ _ _ h1, ihy hw.2 _ _ _ h2]
+
+/-- decoding is idempotent through the canonical encoding: whatever `decode` returns, the
+    canonical encoding of that value decodes to the same value -/
+theorem decode_normal_form (ext : Nat → Bytes → Option Bytes) (hext : ExtCanonical ext)
+    (s : Schema) (hw : wfSchema s = true) (b : Bytes) (v : Value) (rest : Bytes)
+    (h : decode ext s b = some (v, rest)) (rest' : Bytes) :
+    decode ext s (encode s v ++ rest') = some (v, rest') :=
+  bincode_prefix ext s v rest' (decode_wt ext hext s hw b v rest h)
+
 end Mv.Bincode
